@@ -177,15 +177,24 @@ class _WEA:
 
 
 class _EVC:
+    next_events = ()           # programmed by the harness: partial event documents ({"data", "timestamps", "time"})
+
     def collect(self):
         self._log("collect", self.id)
-        yield from []
+        yield from [dict(e) for e in self.next_events]
 
 
 class _PGC:
+    next_events = ()
+
     def collect_pages(self):
         self._log("collect_pages", self.id)
-        yield from []
+        evs = [dict(e) for e in self.next_events]
+        if evs:                # one page holding all programmed events
+            keys = list(evs[0]["data"])
+            yield {"data": {k: [e["data"][k] for e in evs] for k in keys},
+                   "timestamps": {k: [e["timestamps"][k] for e in evs] for k in keys},
+                   "time": [e["time"] for e in evs]}
 
 
 _MIX = {"readable": _Readable, "configurable": _Configurable, "subscribable": _Subscribable,
